@@ -246,4 +246,60 @@ def run_case(case):
     return ok(nontrivial, classes, {'virtual_ms': vt, 'sets': {k: len(v) for k, v in got.items()}})
 
 
-PARTS = [Part('composition', run_case, strategy=case_strategy, examples={'quick': 300, 'thorough': 6000})]
+# ---- cross-check of the simulator and of the reference model on real ZeroMQ sockets ------------------------------------------------
+
+@st.composite
+def real_case_strategy(draw, tier):
+    """Lossless synchronized cases only (their result does not depend on the schedule), kept small: they run in real time."""
+    c = draw(case_strategy(tier))
+    c['n'] = min(c['n'], 8)
+    for nd in c['nodes']:
+        beh = nd['beh']
+        beh['work'] = [min(w, 30) for w in beh.get('work') or [0]]
+        if beh.get('kind') == 'src':
+            beh['n'] = c['n']
+            beh['work'] = [max(5, w) for w in beh['work']]
+        for key in ('skip', 'empty'):
+            if key in beh:
+                beh[key] = [s_ for s_ in beh[key] if s_ < c['n']]
+        nd['start'] = min(nd['start'], 300)
+    return c
+
+
+def run_real(case):
+    import shutil
+    import tempfile
+    harness = _S['harness']
+    nodes = finalize_nodes(case)
+    exp, _ = reference(case)
+    tmp = tempfile.mkdtemp(prefix='c03real-')
+    p = harness.RealPipeline(nodes, tmp)
+    try:
+        p.start_all()
+        p.run_until(lambda: all(len(p.process_calls(nid)) >= len(e) for nid, e in exp.items()), 25)
+        import time
+        time.sleep(0.4)
+        got = {nid: p.process_calls(nid) for nid in exp}
+        raised = [(k, e) for k, e in p.ends.items() if e['how'] == 'raised']
+    finally:
+        p.finish()
+        shutil.rmtree(tmp, ignore_errors=True)
+    classes = [f'real sockets topo {case["topo"]}']
+    if raised:
+        return bad(f'real sockets: filter {raised[0][0][0]} ended with {raised[0][1]["exc"]}', 'real:filter-raised', classes)
+    for nid, e in exp.items():
+        g = [{t: (pv['origin'], pv['seq']) if pv else None for t, pv in rec['in'].items()} for rec in got[nid]]
+        e2 = [{t: tuple(v) for t, v in d.items()} for d in e]
+        if g != e2:
+            i = next((i for i, (a, b) in enumerate(zip(g, e2)) if a != b), min(len(g), len(e2)))
+            return bad(f'real ZeroMQ sockets: {nid} saw {len(g)} sets, the reference model gives {len(e2)}; first difference at {i}: got {g[i] if i < len(g) else None}, '
+                       f'expected {e2[i] if i < len(e2) else None}', 'real:sequence-differs', classes)
+    return ok(True, classes, {'sets': {k: len(v) for k, v in got.items()}})
+
+
+PARTS = [
+    Part('composition', run_case, strategy=case_strategy, examples={'quick': 300, 'thorough': 6000}, share=0.85),
+    Part('real_sockets', run_real, strategy=real_case_strategy, examples={'quick': 2, 'thorough': 12}, share=0.15, shards=4),
+]
+EVIDENCE_EXTRA = {'cross_check': 'part real_sockets runs generated lossless cases on real ZeroMQ ipc sockets (threads, real time) and compares every filter\'s input '
+                                 'sequence with the same reference model the simulated runs are judged by'}
